@@ -99,8 +99,16 @@ def finish(ctx, level, explanation, checker_cmd, trusted_base, t0, replay_only=N
     viol = [o for o in ctx.obs if o.status == VIOLATED]
     new_viol = []
     known_hit = []
+    def base_key(k):
+        # thorough tier prefixes the configuration ('nostd:', 'pybindings:'); a finding is the same construct in every configuration
+        for pre in ('nostd:', 'pybindings:'):
+            if k.startswith(pre):
+                return k[len(pre):]
+        return k
     for o in viol:
-        if o.key in known_keys:
+        if o.key in known_keys or base_key(o.key) in known_keys:
+            if o.key not in known_keys:
+                known_keys[o.key] = known_keys[base_key(o.key)]
             known_hit.append(o)
         else:
             new_viol.append(o)
